@@ -2,11 +2,14 @@ package props
 
 import (
 	"fmt"
+	"io"
 	"time"
 
 	"colverif/eng"
 	"colverif/model"
 	"colverif/vsched"
+
+	"github.com/kelindar/column"
 )
 
 // ---------------------------------------------------------------------------
@@ -22,6 +25,12 @@ type c09Write struct {
 
 // c09Scenario: column "a" of the given kind; each thread has a list of writes.
 func c09Scenario(kind string, threads [][]c09Write, withIndex bool) func() *eng.SchedInstance {
+	return c09ScenarioX(kind, threads, withIndex, "")
+}
+
+// c09ScenarioX adds one thread that issues no write: "createindex" (index maintenance
+// on the merged column), "snapshot" or "reader" (filtered iteration over the column).
+func c09ScenarioX(kind string, threads [][]c09Write, withIndex bool, extra string) func() *eng.SchedInstance {
 	return func() *eng.SchedInstance {
 		k := model.Kinds[kind]
 		init := k.Values[0]
@@ -38,11 +47,35 @@ func c09Scenario(kind string, threads [][]c09Write, withIndex bool) func() *eng.
 			}
 			sw.add(fmt.Sprintf("W%d", i+1), acts, false)
 		}
+		bodies, names := sw.bodies(), sw.names()
+		var extraErr error
+		switch extra {
+		case "createindex":
+			names = append(names, "createIndex")
+			bodies = append(bodies, func() {
+				extraErr = sw.w.C.CreateIndex("late", "a", func(r columnReader) bool { return !readerEquals(k, r, init) })
+			})
+		case "snapshot":
+			names = append(names, "snapshot")
+			bodies = append(bodies, func() { extraErr = sw.w.C.Snapshot(io.Discard) })
+		case "reader":
+			names = append(names, "reader")
+			bodies = append(bodies, func() {
+				sw.w.C.Query(func(txn *column.Txn) error {
+					txn.With("a").Range(func(uint32) { k.ReadTxn(txn, "a") })
+					k.Sum(txn, "a")
+					return nil
+				})
+			})
+		}
 		return &eng.SchedInstance{
-			Threads: sw.bodies(),
+			Threads: bodies,
 			Close:   sw.w.Close,
 			Check: func(res *vsched.Result) (string, []eng.Violation) {
-				vs := threadPanics(res, sw.names())
+				vs := threadPanics(res, names)
+				if extraErr != nil {
+					vs = append(vs, eng.Violation{Assert: "extra/error", Witness: names[len(names)-1] + " failed beside the merging transactions", Detail: extraErr.Error()})
+				}
 				outcome := ""
 				for _, off := range []uint32{R0, R1} {
 					// expected: fold the writes in the apply order the trigger witnessed
@@ -50,7 +83,15 @@ func c09Scenario(kind string, threads [][]c09Write, withIndex bool) func() *eng.
 					seen := map[int]int{}
 					var chainBad string
 					for _, e := range sw.applied["a"] {
-						if e.off != off {
+						if e.off != off || e.thread < 0 {
+							continue // (thread < 0: set-up, outside the exploration)
+						}
+						if e.thread >= len(threads) {
+							// a store by the thread that issued no write (index maintenance that
+							// re-writes what it read) is harmless only if it leaves the value as it is
+							if e.val != cur && chainBad == "" {
+								chainBad = fmt.Sprintf("thread %s, which issued no write, replaced %s by %s in row %d", names[e.thread], k.Show(cur), k.Show(e.val), off)
+							}
 							continue
 						}
 						seen[e.thread]++
@@ -123,7 +164,7 @@ func init() {
 		Prop:  "C09",
 		Level: "model_checking", NodeStates: true,
 		Rule: "SCHED: for each scenario (2-3 transactions merging into the same rows in one and two blocks; int, int16 wrap-around, uint64, float64 additive merges; order-sensitive string " +
-			"concatenation and record merges; mixed with an overwriting writer and an index on the merged column) every interleaving at every lock/atomic operation of the real code up to " +
+			"concatenation and record merges; mixed with an overwriting writer, an index on the merged column, and a thread creating an index on it / taking a snapshot / iterating) every interleaving at every lock/atomic operation of the real code up to " +
 			"the preemption bound; oracle: a trigger witnesses the per-block apply order; the chain of stored values must be the fold of the committed writes in that order, every write " +
 			"applied exactly once, the final value equal to the fold, the index consistent. states = decision nodes of the schedule tree; distinct = distinct (apply order, final values) outcomes",
 		Assumptions: []string{"sequentially consistent interleavings only; data races are the subject of C18", "each thread is one transaction"},
@@ -151,6 +192,11 @@ func init() {
 				{"string/mergers-in-different-blocks", b2, c09Scenario("string", [][]c09Write{{m(R0, S("x"))}, {m(R1, S("yy"))}}, false)},
 				{"int/merger+overwriter+merger", b3, c09Scenario("int", [][]c09Write{{m(R0, N(1))}, {p(R0, N(100))}, {m(R0, N(2))}}, true)},
 				{"int/double-merge-in-one-txn", b2, c09Scenario("int", [][]c09Write{{m(R0, N(1)), m(R0, N(1))}, {m(R0, N(10))}}, false)},
+				// merging transactions beside index maintenance, a snapshot, a reader
+				{"int/2-mergers||createIndex", b3, c09ScenarioX("int", [][]c09Write{{m(R0, N(1)), m(R1, N(1))}, {m(R1, N(2))}}, false, "createindex")},
+				{"string/merger||createIndex", b2, c09ScenarioX("string", [][]c09Write{{m(R0, S("x")), m(R1, S("yy"))}}, false, "createindex")},
+				{"int/2-mergers||snapshot", b3, c09ScenarioX("int", [][]c09Write{{m(R0, N(1)), m(R1, N(1))}, {m(R1, N(2))}}, false, "snapshot")},
+				{"int16/2-mergers||reader", b3, c09ScenarioX("int16", [][]c09Write{{m(R0, N(32767))}, {m(R0, N(32767)), m(R1, N(-1))}}, true, "reader")},
 			})
 		},
 	})
